@@ -41,6 +41,7 @@ func (vc *VC) evalFail(env *Env, format string, args ...any) {
 
 // evalBool evaluates a clause to an SMT Bool term; errors are recorded.
 func (vc *VC) evalBool(cl *Clause, env *Env) (term string, ok bool) {
+	defer vc.flushAxioms()
 	defer func() {
 		if r := recover(); r != nil {
 			if ee, isEE := r.(evalError); isEE {
@@ -757,6 +758,7 @@ func (vc *VC) evalCall(e *SExpr, env *Env) *Val {
 			name := "sf_" + sanitize(f.Name)
 			if !vc.declared[name] {
 				vc.declare(name, fmt.Sprintf("(declare-fun %s (%s) %s)", name, strings.Join(sorts, " "), vc.sortOf(rt)))
+				vc.pendingAxioms = append(vc.pendingAxioms, f.Name)
 			}
 			if len(ts) == 0 {
 				return &Val{T: name, Ty: rt}
@@ -861,4 +863,53 @@ func (vc *VC) loadStruct(st *State, ref string, t types.Type) *Val {
 		parts = append(parts, fmt.Sprintf("(select %s %s)", vc.getIn(st, hn, hs), ref))
 	}
 	return &Val{T: "(mk_" + sortS + " " + strings.Join(parts, " ") + ")", Ty: t}
+}
+
+// mentionsFun reports whether expression e calls specification function name.
+func mentionsFun(e *SExpr, name string) bool {
+	if e == nil {
+		return false
+	}
+	if e.Op == "call" && e.Args[0].Op == "ident" && e.Args[0].Name == name {
+		return true
+	}
+	for _, a := range e.Args {
+		if mentionsFun(a, name) {
+			return true
+		}
+	}
+	return false
+}
+
+// flushAxioms asserts the axioms about specification functions that were
+// declared since the last flush.
+func (vc *VC) flushAxioms() {
+	for len(vc.pendingAxioms) > 0 {
+		name := vc.pendingAxioms[0]
+		vc.pendingAxioms = vc.pendingAxioms[1:]
+		for i, ax := range vc.p.db.Axioms {
+			if vc.axiomDone[i] || !mentionsFun(ax.Expr, name) {
+				continue
+			}
+			if vc.axiomDone == nil {
+				vc.axiomDone = map[int]bool{}
+			}
+			vc.axiomDone[i] = true
+			func() {
+				defer func() {
+					if r := recover(); r != nil {
+						if ee, ok := r.(evalError); ok {
+							vc.errorf("%s:%d: axiom: %s", ax.File, ax.Line, ee.msg)
+							return
+						}
+						panic(r)
+					}
+				}()
+				env := &Env{vars: map[string]*Val{}, st: vc.st, old: vc.st, pkg: ax.Pkg, imports: ax.Imports, where: "axiom " + ax.Name}
+				v := vc.eval(ax.Expr, env)
+				vc.emit("(assert %s)", v.T)
+				vc.used.ExtContracts["axiom "+ax.Name+" ("+ax.Expr.String()+")"] = true
+			}()
+		}
+	}
 }
